@@ -189,6 +189,42 @@ def random_join(item):
     return dict(src=src, tgt=tgt, mode=mode, agg=agg, shape=shape, ordered=ordered, extra=extra, order_ok=order_ok)
 
 
+def big_join(item):
+    """more distinct keys than the key/value store's in-memory cache (10 240): the on-disk index is used"""
+    from dataflows import Flow, join
+    from ..common import tuple_source
+    import kvfile
+    setup_repo()
+    n, dup, agg = item['n'], item['dup'], item['agg']
+    src = [dict(k=i, v=i % 7) for i in range(1, n + 1)]
+    # duplicates interleaved far from their first occurrence
+    src = src[: n // 2] + [dict(k=i, v=1) for i in range(1, dup + 1)] + src[n // 2:]
+    if agg in ('first',):
+        pass
+    tgt_keys = list(range(1, 60)) + list(range(n - 5, n + 6)) + [n // 2, n // 2 + 1, 7, 7]
+    with contextlib.redirect_stdout(io.StringIO()):
+        ds = Flow(tuple_source([('src', [('k', 'integer'), ('v', 'integer')], src), ('tgt', [('k', 'integer')], [dict(k=k) for k in tgt_keys])]),
+                  join('src', ['k'], 'tgt', ['k'], {'x': dict(name='v', aggregate=agg)}, mode='half-outer')).datastream()
+        rows = [[dict(r) for r in res] for res in ds.res_iter][0]
+    out = [[r['k'], -1 if r.get('x') is None else r['x']] for r in rows]
+    if agg == 'last':
+        # the duplicate of key i <= dup comes after its first row only for i <= n // 2 ... both orders are in the input on purpose
+        pass
+    return dict(n=n, dup=dup, agg=agg, tgt=tgt_keys, out=out)
+
+
+def validate_big(rep, recs):
+    wd = tlc.workdir('c11b')
+    tf = tlc.write_ndjson(os.path.join(wd, 'recs.ndjson'), recs)
+    cfg = tlc.write_cfg(os.path.join(wd, 'tr.cfg'), constraints=['Verdict'])
+    res = tlc.run_tlc('JoinBigTrace', cfg, workers=1, env={'TRACE_FILE': tf}, allow_violation=False, timeout=3000)
+    rep.add_tlc(res, 'JoinBigTrace: %d joins with > 10 240 distinct keys (on-disk index)' % len(recs))
+    out = {v[0]: v[1] for v in res.tuples('VERDICT')}
+    if len(out) != len(recs):
+        raise tlc.MachineryError('JoinBigTrace: %d verdicts for %d records' % (len(out), len(recs)))
+    return [out[i + 1] for i in range(len(recs))]
+
+
 def validate(rep, recs):
     wd = tlc.workdir('c11t')
     tf = tlc.write_ndjson(os.path.join(wd, 'recs.ndjson'), recs)
@@ -262,6 +298,19 @@ def run():
                                       agg=g['agg'], mode=g['mode'], shape=g['shape'], src=g['src'], tgt=g['tgt'], ordered=g['ordered'], extra=g['extra']),
                               category='random/%s/%s' % (g['agg'], g['mode']))
         rep.sample(dict(random_join=dict(src=good[0]['src'], tgt=good[0]['tgt'], mode=good[0]['mode'], agg=good[0]['agg'], ordered=good[0]['ordered'])))
+    # the spill path
+    bitems = [dict(n=10600 if t == 'quick' else 12000, dup=40, agg=a) for a in (['sum', 'last'] if t == 'quick' else ['sum', 'count', 'max', 'first', 'last'])]
+    if t == 'thorough':
+        bitems.append(dict(n=25000, dup=300, agg='sum'))
+    brecs = pmap(big_join, bitems, procs=len(bitems), chunksize=1)
+    errs = harness_errors(brecs)
+    if errs:
+        raise tlc.MachineryError('harness error in big joins: ' + errs[0])
+    for it, ok in zip(bitems, validate_big(rep, brecs)):
+        rep.count(1, traces=1)
+        rep.mark_distinct(it)
+        if not ok:
+            rep.violation(it, dict(why='join over > 10 240 distinct keys differs from the closed-form definition', case=it), category='spill/%s' % it['agg'])
     rep.assumptions += ['numeric aggregates are compared as exact rationals (a real float 1.5 = 3/2); set / counters / unmatched-source rows / deduplication rows as multisets',
                         'rows are read through datastream() (before the final validation of results()), values by row.get (missing = null)']
     return rep.finish(exhaustive=(t == 'thorough'))
